@@ -28,6 +28,7 @@ class MemTransport(asyncio.Transport):
         self._extra = {'peername': peername, 'sockname': sockname}
         self.fail_writes = None      # exception instance -> every write fails
         self.block_writes = False    # True -> drain() never completes
+        self.drain_delay = 0.0       # > 0 -> every write applies back pressure: drain() completes that much later
         self._paused = False
         self.bytes_written = 0
 
@@ -57,7 +58,17 @@ class MemTransport(asyncio.Transport):
         if self.block_writes and not self._paused:
             self._paused = True
             self._protocol.pause_writing()
+        elif self.drain_delay > 0 and not self._paused:
+            self._paused = True
+            self._protocol.pause_writing()
+            self._loop.call_later(self.drain_delay, self._resume)
         self._link.write_from(self._index, data)
+
+    def _resume(self):
+        if self._paused and not self.block_writes:
+            self._paused = False
+            if not self._lost:
+                self._protocol.resume_writing()
 
     def writelines(self, lines):
         self.write(b''.join(lines))
@@ -433,6 +444,9 @@ class SimNet:
 
     # -- asyncio replacements -------------------------------------------
     async def open_connection(self, host=None, port=None, **kw):
+        if isinstance(port, bool) or not isinstance(port, int) or not 0 <= port <= 65535:
+            # what the real socket layer does for a port that does not fit in 16 bits (not an OSError)
+            raise OverflowError('connect(): port must be 0-65535.')
         self._counter += 1
         lst = self.remote_listeners.get((host, port))
         if lst is None and port in self.client_listeners:
